@@ -123,6 +123,23 @@ theorem renderNode_ids (n : NodeM) : (renderNode n).ids = n.ids := by
   · simp [List.map_map, Function.comp_def, Flow.Router.ids, renderRouter, Flow.Router.cats,
       Flow.Router.cases, RandomR.ids, renderCat, renderExit]
 
+/-- an identifier that looks like an invented one (`~…`) -/
+def Invented (u : Uid) : Prop := u.head? = some '~'
+
+instance (u : Uid) : Decidable (Invented u) := by unfold Invented; exact inferInstance
+
+/-- the node identifier counts as "freshly allocated" only when it looks invented: identifiers
+given in the sheet (`_nodeId`) are not under the control of the counter -/
+def uidPart (u : Uid) : List Uid := if Invented u then [u] else []
+
+/-- the identifiers of a node other than its own -/
+def NodeM.innerIds (n : NodeM) : List Uid := n.actions.map (·.1) ++ n.tailIds
+
+/-- the identifiers of a node that the counter accounts for -/
+def NodeM.fids (n : NodeM) : List Uid := uidPart n.uid ++ n.innerIds
+
+theorem NodeM.ids_eq (n : NodeM) : n.ids = n.uid :: n.innerIds := rfl
+
 /-- `x` is one of the identifiers handed out while the counter went from `b` to `b'` -/
 def InR (b b' : Nat) (x : Uid) : Prop := ∃ k, b ≤ k ∧ k < b' ∧ x = tid k
 
@@ -130,6 +147,13 @@ def Below (b : Nat) (x : Uid) : Prop := ∃ k, k < b ∧ x = tid k
 
 theorem InR.below {b b' : Nat} {x : Uid} (h : InR b b' x) : Below b' x := by
   obtain ⟨k, _, h2, h3⟩ := h; exact ⟨k, h2, h3⟩
+
+theorem invented_tid (k : Nat) : Invented (tid k) := rfl
+
+theorem uidPart_tid (k : Nat) : uidPart (tid k) = [tid k] := by simp [uidPart, invented_tid]
+
+theorem Below.invented {b : Nat} {x : Uid} (h : Below b x) : Invented x := by
+  obtain ⟨k, _, rfl⟩ := h; exact invented_tid k
 
 theorem Below.mono {b b' : Nat} {x : Uid} (h : Below b x) (hb : b ≤ b') : Below b' x := by
   obtain ⟨k, h2, h3⟩ := h; exact ⟨k, by omega, h3⟩
@@ -295,15 +319,15 @@ theorem Grow.mem {b b' : Nat} {l l' : List Uid} (h : Grow b b' l l') {x : Uid} (
     exact List.count_pos_iff.mp (by omega)
 
 structure IdsInv (ns : Array NodeM) (b : Nat) : Prop where
-  nodup : ∀ (i : Nat) (n : NodeM), ns[i]? = some n → n.ids.Nodup
-  below : ∀ (i : Nat) (n : NodeM), ns[i]? = some n → ∀ x ∈ n.ids, Below b x
-  disj : ∀ (i j : Nat) (n m : NodeM) (x : Uid), ns[i]? = some n → ns[j]? = some m → x ∈ n.ids → x ∈ m.ids → i = j
+  nodup : ∀ (i : Nat) (n : NodeM), ns[i]? = some n → n.fids.Nodup
+  below : ∀ (i : Nat) (n : NodeM), ns[i]? = some n → ∀ x ∈ n.fids, Below b x
+  disj : ∀ (i j : Nat) (n m : NodeM) (x : Uid), ns[i]? = some n → ns[j]? = some m → x ∈ n.fids → x ∈ m.fids → i = j
 
 theorem IdsInv.mono {ns : Array NodeM} {b b' : Nat} (h : IdsInv ns b) (hb : b ≤ b') : IdsInv ns b' :=
   ⟨h.nodup, fun i n hi x hx => (h.below i n hi x hx).mono hb, h.disj⟩
 
 theorem IdsInv.set {ns : Array NodeM} {b b' i : Nat} {old n' : NodeM} (h : IdsInv ns b)
-    (ho : ns[i]? = some old) (hg : Grow b b' old.ids n'.ids) (hb : b ≤ b') :
+    (ho : ns[i]? = some old) (hg : Grow b b' old.fids n'.fids) (hb : b ≤ b') :
     IdsInv (ns.setIfInBounds i n') b' := by
   have hlt : i < ns.size := (Array.getElem?_eq_some_iff.mp ho).1
   have key : ∀ j m, (ns.setIfInBounds i n')[j]? = some m →
@@ -313,7 +337,7 @@ theorem IdsInv.set {ns : Array NodeM} {b b' i : Nat} {old n' : NodeM} (h : IdsIn
     by_cases hij : i = j
     · subst hij; simp [hlt] at hj; exact .inl ⟨rfl, hj.symm⟩
     · simp [hij] at hj; exact .inr ⟨fun e => hij e.symm, hj⟩
-  have hbn : ∀ x ∈ n'.ids, Below b' x := by
+  have hbn : ∀ x ∈ n'.fids, Below b' x := by
     intro x hx
     rcases hg.mem hx with h1 | h1
     · exact (h.below i old ho x h1).mono hb
@@ -339,7 +363,7 @@ theorem IdsInv.set {ns : Array NodeM} {b b' i : Nat} {old n' : NodeM} (h : IdsIn
     · exact h.disj j1 j2 m1 m2 x hm1 hm2 hx1 hx2
 
 theorem IdsInv.push {ns : Array NodeM} {b b' : Nat} {n : NodeM} (h : IdsInv ns b)
-    (hg : Grow b b' [] n.ids) (hb : b ≤ b') : IdsInv (ns.push n) b' := by
+    (hg : Grow b b' [] n.fids) (hb : b ≤ b') : IdsInv (ns.push n) b' := by
   have key : ∀ j m, (ns.push n)[j]? = some m →
       (j = ns.size ∧ m = n) ∨ (j ≠ ns.size ∧ ns[j]? = some m) := by
     intro j m hj
@@ -347,7 +371,7 @@ theorem IdsInv.push {ns : Array NodeM} {b b' : Nat} {n : NodeM} (h : IdsInv ns b
     by_cases hjs : j = ns.size
     · simp [hjs] at hj; exact .inl ⟨hjs, hj.symm⟩
     · simp [hjs] at hj; exact .inr ⟨hjs, hj⟩
-  have hin : ∀ x ∈ n.ids, InR b b' x := by
+  have hin : ∀ x ∈ n.fids, InR b b' x := by
     intro x hx
     rcases hg.mem hx with h1 | h1
     · simp at h1
@@ -370,25 +394,49 @@ theorem IdsInv.push {ns : Array NodeM} {b b' : Nat} {n : NodeM} (h : IdsInv ns b
 
 /-! ### the combined invariant -/
 
-/-- `h`: "no identifiers were given in the sheet so far" (ghost flag; `False` for the
-statements that hold without that hypothesis) -/
-structure AInvC (h : Prop) (ns : Array NodeM) (b : Nat) : Prop where
+/-- ghost flags: which hypotheses on the sheet's `_nodeId` column are assumed
+(`ids`: given identifiers do not look like invented ones — then identifier freshness is tracked;
+`noGiven`: no identifiers are given at all — then every node identifier is an invented one) -/
+structure Flags where
+  ids : Prop
+  noGiven : Prop
+
+/-- no hypothesis on the sheet -/
+def Flags.none : Flags := ⟨False, False⟩
+
+structure AInvC (h : Flags) (ns : Array NodeM) (b : Nat) : Prop where
   ok : NodesOk ns
-  ids : h → IdsInv ns b
+  ids : h.ids → IdsInv ns b
+  inv : h.noGiven → ∀ (i : Nat) (n : NodeM), ns[i]? = some n → Invented n.uid
 
-def AInv (h : Prop) (s : St) : Prop := AInvC h s.nodes s.next
+def AInv (h : Flags) (s : St) : Prop := AInvC h s.nodes s.next
 
-theorem AInvC.bump {h : Prop} {ns : Array NodeM} {b b' : Nat} (a : AInvC h ns b) (hb : b ≤ b') :
-    AInvC h ns b' := ⟨a.ok, fun hh => (a.ids hh).mono hb⟩
+theorem AInvC.bump {h : Flags} {ns : Array NodeM} {b b' : Nat} (a : AInvC h ns b) (hb : b ≤ b') :
+    AInvC h ns b' := ⟨a.ok, fun hh => (a.ids hh).mono hb, a.inv⟩
 
-theorem AInvC.set {h : Prop} {ns : Array NodeM} {b b' i : Nat} {old n' : NodeM} (a : AInvC h ns b)
+theorem AInvC.set {h : Flags} {ns : Array NodeM} {b b' i : Nat} {old n' : NodeM} (a : AInvC h ns b)
     (ho : ns[i]? = some old) (hu : n'.uid = old.uid) (hn : NodeOk ns n')
-    (hg : Grow b b' old.ids n'.ids) (hb : b ≤ b') : AInvC h (ns.setIfInBounds i n') b' :=
-  ⟨a.ok.set ho hu hn, fun hh => (a.ids hh).set ho hg hb⟩
+    (hg : Grow b b' old.fids n'.fids) (hb : b ≤ b') : AInvC h (ns.setIfInBounds i n') b' := by
+  refine ⟨a.ok.set ho hu hn, fun hh => (a.ids hh).set ho hg hb, ?_⟩
+  intro hh j m hj
+  rw [Array.getElem?_setIfInBounds] at hj
+  by_cases hij : i = j
+  · subst hij
+    have hlt : i < ns.size := (Array.getElem?_eq_some_iff.mp ho).1
+    simp [hlt] at hj; subst hj
+    rw [hu]; exact a.inv hh i old ho
+  · simp [hij] at hj
+    exact a.inv hh j m hj
 
-theorem AInvC.push {h : Prop} {ns : Array NodeM} {b b' : Nat} {n : NodeM} (a : AInvC h ns b)
-    (hn : NodeOk (ns.push n) n) (hg : h → Grow b b' [] n.ids) (hb : b ≤ b') :
-    AInvC h (ns.push n) b' :=
-  ⟨a.ok.push hn, fun hh => (a.ids hh).push (hg hh) hb⟩
+theorem AInvC.push {h : Flags} {ns : Array NodeM} {b b' : Nat} {n : NodeM} (a : AInvC h ns b)
+    (hn : NodeOk (ns.push n) n) (hg : h.ids → Grow b b' [] n.fids) (hi : h.noGiven → Invented n.uid)
+    (hb : b ≤ b') : AInvC h (ns.push n) b' := by
+  refine ⟨a.ok.push hn, fun hh => (a.ids hh).push (hg hh) hb, ?_⟩
+  intro hh j m hj
+  rw [Array.getElem?_push] at hj
+  by_cases hjs : j = ns.size
+  · simp [hjs] at hj; subst hj; exact hi hh
+  · simp [hjs] at hj
+    exact a.inv hh j m hj
 
 end Rpft.Compile
